@@ -25,6 +25,8 @@
 (*                   being handled                                         *)
 (*   Launch          asynchronous: the results of the current selected     *)
 (*                   value are left to a process                           *)
+(*   LaunchFail / Reap   ... to a process that fails: it is removed from   *)
+(*                   the pool at some later poll, nothing is yielded       *)
 (*   DoneSel, EndInput, Finish                                             *)
 (*   EndFirstRun / StartSecond / Abort   the same element object is run a  *)
 (*                   second time (after the first run ended, or after the  *)
@@ -92,7 +94,7 @@ Consume == /\ phase = "idle" /\ pos < Len(pat) /\ ~AtCut
            /\ UNCHANGED <<pat, fan, own, async, xs, out, pending, fs, cutdone>>
 
 \* results of earlier selected values whose process has terminated
-Flush(r) == /\ phase \in {"polls", "pollu", "drain", "drain1"} /\ r \in pending
+Flush(r) == /\ phase \in {"polls", "pollu", "drain", "drain1"} /\ r \in pending /\ r <= NRef
             /\ out' = Append(out, S(r))
             /\ pending' = pending \ {r}
             /\ UNCHANGED <<pat, fan, own, async, xs, pos, na, nb, j, fs, phase, cutdone>>
@@ -118,6 +120,18 @@ Launch == /\ phase = "sel" /\ async /\ j = 0 /\ Todo # {}
           /\ fs' = fs \cup {pos}          \* a process is started
           /\ phase' = "idle"
           /\ UNCHANGED <<pat, fan, own, async, xs, pos, na, nb, j, out, cutdone>>
+\* asynchronous: the process of the current selected value is started and FAILS (fan-out 0): it stays in the pool
+\* under the identifier NRef + na until some later poll (or the end of the run) removes it - silently, wherever
+\* that happens: nothing is ever yielded for it
+FailId(k) == NRef + k
+LaunchFail == /\ phase = "sel" /\ async /\ j = 0 /\ Todo = {} /\ fan[na] = 0
+              /\ pending' = pending \cup {FailId(na)}
+              /\ fs' = fs \cup {pos}
+              /\ phase' = "idle"
+              /\ UNCHANGED <<pat, fan, own, async, xs, pos, na, nb, j, out, cutdone>>
+Reap(r) == /\ phase \in {"polls", "pollu", "drain", "drain1"} /\ r \in pending /\ r > NRef
+           /\ pending' = pending \ {r}
+           /\ UNCHANGED <<pat, fan, own, async, xs, pos, na, nb, j, out, fs, phase, cutdone>>
 DoneSel == /\ phase = "sel" /\ Todo = {}
            /\ phase' = "idle"
            /\ UNCHANGED <<pat, fan, own, async, xs, pos, na, nb, j, out, pending, fs, cutdone>>
@@ -142,7 +156,8 @@ Abort == /\ phase = "idle" /\ AtCut /\ xs.kind = "abort"
          /\ UNCHANGED <<pat, fan, own, async, xs, pos, na, nb, j, out, pending, fs, phase>>
 
 FlushAny == \E r \in 1..NRef : Flush(r)
-Next == Consume \/ FlushAny \/ PollDone \/ PassUnselected \/ EmitSel \/ FsSel \/ Launch
+ReapAny == \E k \in 1..Count(pat, TRUE) : Reap(FailId(k))
+Next == Consume \/ FlushAny \/ ReapAny \/ PollDone \/ PassUnselected \/ EmitSel \/ FsSel \/ Launch \/ LaunchFail
         \/ DoneSel \/ EndInput \/ Finish \/ EndFirstRun \/ StartSecond \/ Abort
 Spec == Init /\ [][Next]_vars
 
@@ -167,6 +182,7 @@ SelIndependent ==
     /\ \A x \in 1..Len(out) : out[x].k = "s" => own[out[x].i] <= na
     /\ ~async => Proj("s") = Iota(Len(Proj("s")))
     /\ phase = "done" => Emitted = 1..NRef
+    /\ \A x \in 1..Len(out) : out[x].k = "s" => fan[own[out[x].i]] > 0       \* a failed job yields nothing
 
 \* file system and process events happen only on behalf of selected values
 NoFsForUnsel == \A p \in fs : pat[p]
@@ -180,7 +196,8 @@ Expected(p, ia, ib) ==
 Metamorphic == (phase = "done" /\ ~async) => out = Expected(pat, 1, 1)
 
 TypeOK == /\ pos \in 0..Len(pat) /\ na = Count(SubSeq(pat, 1, pos), TRUE) /\ nb = Count(SubSeq(pat, 1, pos), FALSE)
-          /\ pending \subseteq 1..NRef /\ pending \cap Emitted = {}
+          /\ pending \subseteq 1..(NRef + Count(pat, TRUE)) /\ pending \cap Emitted = {}
+          /\ \A k \in 1..Count(pat, TRUE) : FailId(k) \in pending => (k <= na /\ fan[k] = 0)
           /\ (~async => pending = {})
 
 \* export of the expected output layout for every interleaving and fan-out (S2C)
